@@ -1273,10 +1273,14 @@ def c07_execs(r, quick, rec):
         for order in gen.ORDERS:
             for bits in range(256):
                 k += 1
-                N = 1 + (k + rep) % 4
+                nmax = {3: 8, 5: 6, 7: 5}[order]          # (order + 1) N <= 40 unknowns of the exact solve
+                if quick:
+                    N = nmax - (k // 16) % 2 if k % 16 == 0 else 1 + (k + rep) % 4
+                else:
+                    N = 1 + (k + rep) % (nmax if rep % 2 else 4)
                 D = 1 + (k // 4 + rep) % 4
-                if (order + 1) * N > 40:
-                    N = 40 // (order + 1)
+                if N > 4:
+                    D = 1 + (k // 16 + rep) % 2
                 tm, sm = FAMILIES[(k // 16 + rep) % 4]
                 K = (1, 2, 3, 8, 64)[(k + 2 * rep) % 5]
                 if K == 64 and N * D > 6:
@@ -1299,7 +1303,7 @@ def plan_C07(ctx):
     r = gen.Rng(ctx.seed * 1000003 + 7)
     batches = balanced(c07_execs(r, ctx.quick(), False), 48 if ctx.quick() else 128)
     return opt_finish(ctx, batches, {},
-                      "all 256 flag settings x 3 orders, with N 1..4, dimension 1..4, {default, user} time map x {identity, reduced-dof user} spatial "
+                      "all 256 flag settings x 3 orders, with N 1..4 (and up to 8/6/5 segments for cubic/quintic/septic in dimension 1..2), dimension 1..4, {default, user} time map x {identity, reduced-dof user} spatial "
                       "map, energy weight {0, 0.5, 2}, steps {1,2,3,8,64} and both overloads cycled; cost functors depend on p, v, a, j, s, global "
                       "time and segment index; every gradient component compared with the exact gradient of the exact cost (OptMath!Grad, itself "
                       "checked against exact central differences by TLC on a grid)", {"C07"})
